@@ -353,27 +353,10 @@ def rules(rep, m):
             r4.instance("%s: neutral (%s)" % (gv.name, NEUTRAL_TLS[gv.name]))
             r4.ok()
             continue
-        # parameter memo (same test as C15)
-        memo = gv.local_to is not None
+        # parameter memo (same test as C15): written only by sampling functions of the random module, from their parameters
+        memo = bool(ws) and all((m.rel(m.funcs[k].file) or "") in ("src/cmb_random.c", "include/cmb_random.h") for k in ws)
         if memo:
-            f = m.funcs[gv.local_to]
-            pids = {p["id"] for p in f.params}
-            for lhs, rhs, kind, node in inv.stores(f):
-                root = strip(lhs, casts=True)
-                if not (root["kind"] == "DeclRefExpr" and m.global_key(f.unit, f, root.get("ref", {})) == g):
-                    continue
-                if kind != "=" or rhs is None:
-                    memo = False
-                    continue
-                for x in walk(rhs):
-                    if x["kind"] == "CallExpr" and callee_ref(x) not in PURE_MATH:
-                        memo = False
-                    if x["kind"] == "DeclRefExpr" and x.get("ref", {}).get("kind") in ("VarDecl", "ParmVarDecl"):
-                        if x["ref"]["id"] in pids:
-                            continue
-                        gk2 = m.global_key(f.unit, f, x["ref"])
-                        if gk2 is None or gk2 == g or m.globals[gk2].local_to != f.key:
-                            memo = False
+            memo, _why = common.parameter_memo(m, g, ws)
         if memo:
             r4.instance("%s: parameter memo" % gv.name)
             r4.ok()
